@@ -9,6 +9,7 @@ package main
 import (
 	"go/constant"
 	"go/token"
+	"go/types"
 	"strings"
 
 	"golang.org/x/tools/go/ssa"
@@ -1084,6 +1085,65 @@ func ruleNodeLookupScope(r *Run) {
 	r.AtLeast(rule, "uses of the node-lookup predicate", n, 3)
 }
 
+// routingExemptions: the conditions under which TypeURLMap.SetFromSchema leaves a type or a
+// field without a route, each with the reason why the gateway can still answer it.
+var routingExemptions = map[string]string{
+	"common.IsBuiltinName":     "introspection names (`__typename`, `__schema`, `__type`, `__*` types) are answered by the gateway itself",
+	"common.IsQueryObjectName": "scope of the node-lookup exemption (R13d.scope)",
+	"merger.isNodeField":       "the relay lookup `node` of Query is answered by the gateway itself (R13d.sig, R13d.scope)",
+	"lo.Contains":              "tests whether the type implements Node: marks the type, exempts nothing",
+}
+
+// ruleRoutingExemptions (R13d.exempt): every field of every object type gets a route unless one
+// of the confirmed exemptions applies. A further condition in the routing loop is a further way
+// for a field to stay in the gateway's schema without a route.
+func ruleRoutingExemptions(r *Run) {
+	const rule = "R13d.exempt"
+	fn := r.Anchor(rule, "merger.(TypeURLMap).SetFromSchema")
+	if fn == nil {
+		return
+	}
+	n := 0
+	for _, ins := range allInstrs(fn) {
+		iff, ok := ins.(*ssa.If)
+		if !ok {
+			continue
+		}
+		cond := iff.Cond
+		if u, ok := cond.(*ssa.UnOp); ok && u.Op == token.NOT {
+			cond = u.X
+		}
+		switch c := cond.(type) {
+		case *ssa.Call:
+			n++
+			name := calleeName(&c.Call)
+			short := name
+			for k := range routingExemptions {
+				if strings.HasSuffix(strings.SplitN(name, "[", 2)[0], k) {
+					short = k
+				}
+			}
+			reason, known := routingExemptions[short]
+			r.Check(known, rule, fnName(fn), "condition "+calleeDesc(&c.Call), r.P.pos(c.Pos()),
+				"confirmed exemption: "+reason,
+				"the routing loop tests a condition that is not one of the confirmed exemptions ("+name+"): a field or type for which it holds gets no route although it may stay in the gateway's schema — a request for it is sent to a service that does not declare it")
+		case *ssa.BinOp:
+			// comparisons with a string constant: a name singled out inline
+			for _, v := range []ssa.Value{c.X, c.Y} {
+				if _, plain := k0Type(v).(*types.Basic); !plain {
+					continue // a typed constant such as ast.Object: the kind of definition, not a name
+				}
+				if k, ok := v.(*ssa.Const); ok && k.Value != nil && k.Value.Kind() == constant.String {
+					n++
+					r.Bad(rule, fnName(fn), "condition on the name "+k.Value.ExactString(), r.P.pos(c.Pos()),
+						"the routing loop singles out a name ("+k.Value.ExactString()+") that is not one of the confirmed exemptions: such a field or type gets no route although it may stay in the gateway's schema")
+				}
+			}
+		}
+	}
+	r.AtLeast(rule, "exemption tests in the routing loop", n, 3)
+}
+
 // nilTestSideEq: iff tests `v == nil` / `v != nil` on exactly v; returns the block entered when v is nil.
 func nilTestSideEq(iff *ssa.If, v ssa.Value) *ssa.BasicBlock {
 	bo, ok := iff.Cond.(*ssa.BinOp)
@@ -1097,4 +1157,11 @@ func nilTestSideEq(iff *ssa.If, v ssa.Value) *ssa.BasicBlock {
 		return iff.Block().Succs[0]
 	}
 	return iff.Block().Succs[1]
+}
+
+func k0Type(v ssa.Value) types.Type {
+	if v == nil || v.Type() == nil {
+		return nil
+	}
+	return v.Type()
 }
